@@ -49,6 +49,6 @@ PROPS['C18'] = dict(
                  'opn2_setTempo(<= 0) returns nothing and must change nothing (the header documents a positive multiplier)',
                  'initial values of a fresh instance are adopted, not modelled'],
     stages=[
-        dict(name='histories', variant='asan', harness='c18_settings.cpp', quick=600, thorough=6000, budget=60, cxxflags=['-O1']),
+        dict(name='histories', variant='asan', harness='c18_settings.cpp', quick=2000, thorough=20000, budget=60, cxxflags=['-O1']),
     ],
 )
